@@ -215,17 +215,24 @@ def ans_proofs(ctx):
     import shutil, subprocess, re
     wd = os.path.join(ctx.work, "proofs")
     shutil.copytree(os.path.join(core.SPEC, "proofs"), wd, ignore=shutil.ignore_patterns(".tlacache"))
-    p = subprocess.run(["timeout", "1500", "tlapm", "--threads", "6", "--cleanfp", "AnsStep.tla"], cwd=wd, stdout=subprocess.PIPE, stderr=subprocess.STDOUT, text=True)
-    m = re.search(r"All (\d+) obligations proved", p.stdout)
-    if not m:
-        raise core.ToolError("TLAPS did not prove spec/proofs/AnsStep.tla:\n" + p.stdout[-1500:])
-    ctx.classes["tlaps_obligations_proved"] = int(m.group(1))
+    total = 0
+    # AnsStep: the step over numbers; AnsMessage: the step over whole configurations (state + bulk) and the inductive invariant
+    # of the machine that encodes an unbounded message (decoding in reverse walks back through every earlier configuration)
+    for mod in ["AnsStep.tla", "AnsMessage.tla"]:
+        p = subprocess.run(["timeout", "1500", "tlapm", "--threads", "6", "--cleanfp", mod], cwd=wd, stdout=subprocess.PIPE, stderr=subprocess.STDOUT, text=True)
+        m = re.search(r"All (\d+) obligations proved", p.stdout)
+        if not m:
+            raise core.ToolError("TLAPS did not prove spec/proofs/%s:\n" % mod + p.stdout[-1500:])
+        total += int(m.group(1))
+        ctx.classes["tlaps_" + mod[:-4]] = int(m.group(1))
+    ctx.classes["tlaps_obligations_proved"] = total
     ctx.assumptions.append("TLAPS 1.6 (SMT back end Z3) checks proofs correctly")
     for (w, s, mb) in [(2, 4, 2), (2, 5, 1), (2, 6, 1), (3, 6, 1), (3, 7, 1)] + ([(4, 8, 1), (3, 9, 1), (2, 8, 2)] if ctx.tier == "thorough" else []):
         st = ctx.tlc("MC_AnsBridge", {"W": w, "S": s, "MaxBulk": mb}, invariants=["Bridge"], label="MC_AnsBridge_%d_%d" % (w, s))
         if st["spec_violation"]:
             raise core.ToolError("MC_AnsBridge: Ans.tla is not the step proved in spec/proofs at W=%d S=%d:\n%s" % (w, s, st.get("counterexample", "")))
-    ctx.require("tlaps_obligations_proved", 400)
+    ctx.require("tlaps_obligations_proved", 600)
+    ctx.require("tlaps_AnsMessage", 150)
 
 
 def big_equiv(ctx):
